@@ -176,7 +176,9 @@ def minimise(ctx, row, i, key):
     two-frame sequence in which frame i yields a DIFFERENT record than it yields alone (left-over state), if any."""
     fr = row["frames"]
     ring = row.get("ring", 0)
-    cands = [([fr[i]], ring)] + [([fr[j], fr[i]], r) for j in range(i) for r in sorted({ring, min(ring, 1)})] + [(fr[:i + 1], ring)]
+    # records are read after the whole sequence, so a later frame can also be what spoils the record of frame i
+    cands = ([([fr[i]], ring)] + [([fr[j], fr[i]], r) for j in range(i) for r in sorted({ring, min(ring, 1)})]
+             + [([fr[i], fr[k]], ring) for k in range(i + 1, len(fr))] + [(fr[:i + 1], ring), (fr, ring)])
     rows = run_sequences(ctx, [{"kind": row["kind"], "vpn": row["vpn"], "ring": r, "frames": c} for c, r in cands], "min")
     best, stale = None, None
     for r in rows:
@@ -184,6 +186,7 @@ def minimise(ctx, row, i, key):
         if best is None and v and v[1][0] == key:
             best = (r, v[0], v[1])
         if (stale is None and rows and len(r["obs"]) == len(r["frames"]) > 1 and len(rows[0]["obs"]) == 1
+                and r["frames"][-1] == fr[i]
                 and r["obs"][-1]["k"] == 1 and nf(r["obs"][-1]) != nf(rows[0]["obs"][0])):
             stale = (r, rows[0]["obs"][0])
     return (best or (row, i, None)), stale
@@ -201,8 +204,8 @@ def report(ctx, row, i, why, seen):
     path = ctx.write_replay(key.replace(":", "-"), {
         "property": "C06", "what": reason,
         "input": {"kind": small["kind"], "vpn": small["vpn"], "ring": small.get("ring", 0),
-                  "frames": small["frames"][:j + 1], "failing_frame": j},
-        "observed": small["obs"][:j + 1], "replay_cmd": "bin/check C06 --replay <this file>"})
+                  "frames": small["frames"], "failing_frame": j},
+        "observed": small["obs"], "replay_cmd": "bin/check C06 --replay <this file>"})
     ctx.findings.append({"key": key, "what": reason, "replay": path})
     skey = "stale:" + row["kind"]
     if stale and skey not in seen:
